@@ -6,9 +6,13 @@
    event is pending, and the rest of the queue is stuck for good.
    F15 (fixed by f99a7c7): send_message scheduled the Unbusy event before the
    Exit event; with zero latency and jitter a queued zero-time message was then
-   handed to the receiver before the message whose transmission just ended. *)
+   handed to the receiver before the message whose transmission just ended.
+   F18 (fixed by 6d86248): Gate::connect used the caller's handle itself as the
+   channel of the reverse direction, so the reverse directions of all links
+   built from one handle were served by ONE instance: a message offered to a
+   link that is idle was dropped because another link was transmitting. *)
 From Coq Require Import List NArith.
-From DesVerif Require Import CQueue.Model CQueue.Spec Channel.Model Channel.Queue Channel.Trace.
+From DesVerif Require Import CQueue.Model CQueue.Spec Channel.Model Channel.Queue Channel.Trace Channel.Multi Channel.ProjQueue Channel.Project.
 Import ListNotations.
 Open Scope N_scope.
 
@@ -22,8 +26,8 @@ Definition pinned_f15 : variant := {| drain_all := true; exit_first := false |}.
 Lemma C07_pinned_unbusy_refuted :
   exists tx mt offs oracle,
     let bs := group offs 0 in
-    let s := steps pinned_f5 tx mt bs (fuel_for offs) (init bs oracle) in
-    step pinned_f5 tx mt bs s = None /\ busy (ch s) = false /\ buffer (ch s) <> [].
+    let s := steps pinned_f5 enc_ev tx mt bs (fuel_for offs) (init enc_ev bs oracle) in
+    step pinned_f5 enc_ev tx mt bs s = None /\ busy (ch s) = false /\ buffer (ch s) <> [].
 Proof.
   exists tx_2T, {| m_lat := 1000000; m_jit := 0; m_pol := PQueue None |},
          [(0, 1088); (0, 64); (0, 64); (0, 64)], [].
@@ -34,7 +38,7 @@ Qed.
 Lemma C07_repaired_unbusy_same_script :
   let offs := [(0, 1088); (0, 64); (0, 64); (0, 64)] in
   let bs := group offs 0 in
-  let s := steps current tx_2T {| m_lat := 1000000; m_jit := 0; m_pol := PQueue None |} bs (fuel_for offs) (init bs []) in
+  let s := steps current enc_ev tx_2T {| m_lat := 1000000; m_jit := 0; m_pol := PQueue None |} bs (fuel_for offs) (init enc_ev bs []) in
   rev (delivered (log s)) = [0; 1; 2; 3] /\ buffer (ch s) = [].
 Proof. vm_compute. split; reflexivity. Qed.
 
@@ -43,7 +47,7 @@ Lemma C07_pinned_exit_order_refuted :
   exists tx mt offs oracle,
     m_jit mt = 0 /\
     let bs := group offs 0 in
-    let s := steps pinned_f15 tx mt bs (fuel_for offs) (init bs oracle) in
+    let s := steps pinned_f15 enc_ev tx mt bs (fuel_for offs) (init enc_ev bs oracle) in
     rev (accepted (log s)) = [0; 1] /\ rev (delivered (log s)) = [1; 0].
 Proof.
   exists tx_2T, {| m_lat := 0; m_jit := 0; m_pol := PQueue None |}, [(0, 1088); (0, 64)], [].
@@ -53,6 +57,32 @@ Qed.
 Lemma C07_repaired_exit_order_same_script :
   let offs := [(0, 1088); (0, 64)] in
   let bs := group offs 0 in
-  let s := steps current tx_2T {| m_lat := 0; m_jit := 0; m_pol := PQueue None |} bs (fuel_for offs) (init bs []) in
+  let s := steps current enc_ev tx_2T {| m_lat := 0; m_jit := 0; m_pol := PQueue None |} bs (fuel_for offs) (init enc_ev bs []) in
   rev (delivered (log s)) = [0; 1].
 Proof. vm_compute. reflexivity. Qed.
+
+(* F18: the reverse directions (odd channels) of links built from one handle share instance 1 *)
+Definition pinned_f18 (c : N) : N := if N.odd c then 1 else c.
+
+Definition mt_8k : metrics := {| m_lat := 100000000; m_jit := 0; m_pol := PDrop |}.
+Definition alone : list (N * list (N * N * N)) := [(10000000, [(3, 1, 64)])].
+Definition with_other_link : list (N * list (N * N * N)) := [(0, [(1, 0, 64)]); (10000000, [(3, 1, 64)])].
+
+(* links_independent fails: the two scripts agree on what is offered to channel 3 (message 1 at 10 ms),
+   yet with traffic on the other link (channel 1) that message is dropped "because the channel was busy" *)
+Lemma C07_pinned_shared_handle_refuted :
+  exists tx mt b1 b2,
+    pbursts b1 3 = pbursts b2 3 /\
+    let run b := msteps pinned_f18 tx mt b 20 (minit b (fun _ => idle_chan) (fun _ => [])) in
+    In (IDeliver 1 174000000) (map snd (mlog (run b1))) /\
+    In (IDropBusy 1 64 10000000) (map snd (mlog (run b2))) /\ ~ In (IDeliver 1 174000000) (map snd (mlog (run b2))).
+Proof.
+  exists (fun _ => 64000000), mt_8k, alone, with_other_link. vm_compute.
+  split; [reflexivity|]. split; [intuition|]. split; [intuition|]. intros H. intuition discriminate.
+Qed.
+
+(* ... while with one instance per direction and link it is delivered in both *)
+Lemma C07_repaired_shared_handle_same_scripts :
+  let run b := msteps own_instance (fun _ => 64000000) mt_8k b 20 (minit b (fun _ => idle_chan) (fun _ => [])) in
+  plog 3 (mlog (run alone)) = plog 3 (mlog (run with_other_link)) /\ In (IDeliver 1 174000000) (plog 3 (mlog (run with_other_link))).
+Proof. vm_compute. split; [reflexivity|intuition]. Qed.
